@@ -742,7 +742,12 @@ fn replay_scenario(t: &mut Trace, base: &Path, run: u64, sc: &Value, mc_cfg: &Cf
     for op in sc["ops"].as_array().expect("ops") {
         match op["op"].as_str().expect("op") {
             "Corrupt" => {
-                let i = op.get("i").and_then(|x| x.as_u64()).map(|x| x as usize).unwrap_or(run as usize * 7 + ncorrupt);
+                // which corrupt content: rotate through all of them, but every fourth run takes bytes that are not even
+                // text (the load then fails while READING the file, not while parsing it)
+                let all = corrupt_contents(&cache_json(&[(1, 1, 1, 0, 0), (2, 2, 2, 1, 10)]));
+                let non_text: Vec<usize> = all.iter().enumerate().filter(|(_, c)| String::from_utf8(c.1.clone()).is_err()).map(|(j, _)| j).collect();
+                let default_i = if run % 4 == 3 && !non_text.is_empty() { non_text[(run as usize / 4 + ncorrupt) % non_text.len()] } else { run as usize * 7 + ncorrupt };
+                let i = op.get("i").and_then(|x| x.as_u64()).map(|x| x as usize).unwrap_or(default_i);
                 ncorrupt += 1;
                 corrupt(t, &mut w, i, &src);
             }
